@@ -6,6 +6,7 @@ import (
 	"fmt"
 	pgeneric "github.com/cloudwego/dynamicgo/proto/generic"
 	"reflect"
+	"strings"
 	"unsafe"
 
 	"github.com/cloudwego/dynamicgo/conv"
@@ -233,9 +234,17 @@ func (s *c12Shared) exec(op *c12Op) (res c12Result) {
 		if len(s.pbJSONs) == 0 {
 			break
 		}
-		out, err := s.j2pConv.Do(ctx, s.pdesc, input(s.pbJSONs[op.Doc%len(s.pbJSONs)]))
+		in := input(s.pbJSONs[op.Doc%len(s.pbJSONs)])
+		tailOK := func() bool { return true }
+		if op.Rec {
+			in, tailOK = withTail(in) // a prefix of a larger buffer of the caller's
+		}
+		out, err := s.j2pConv.Do(ctx, s.pdesc, in)
 		res.Out = out
 		seterr(err)
+		if !tailOK() {
+			res.Err = "INPUT-TAIL-MODIFIED " + res.Err
+		}
 	case opPBLoadMarshal:
 		if len(s.pbMsgs) == 0 {
 			break
@@ -644,6 +653,9 @@ func runC12(w *W) {
 			w.Logf("   -> err=%q out=%d bytes %x", solo[i][k].Err, len(solo[i][k].Out), clipb(solo[i][k].Out, 40))
 			if op.Cut == 0 && len(solo[i][k].Err) > 5 && solo[i][k].Err[:5] == "PANIC" {
 				w.Failf("panic-in-op", w.opFacts, "operation %s panicked: %s", op.Desc, solo[i][k].Err)
+			}
+			if strings.HasPrefix(solo[i][k].Err, "INPUT-TAIL-MODIFIED") {
+				w.Failf("input-modified", w.opFacts, "operation %s wrote into the caller's buffer behind the end of its input", op.Desc)
 			}
 		}
 	}
